@@ -624,7 +624,7 @@ func runG4(p *an.Prog, r *an.Result) {
 			fromCall := func(callee, argSuffix string) bool {
 				for _, o := range an.Origins(st.Val, an.StepValue) {
 					if ex, ok := o.(*ssa.Extract); ok && ex.Index == 0 {
-						if c, ok := ex.Tuple.(*ssa.Call); ok && an.CallName(&c.Call) == callee {
+						if c, ok := ex.Tuple.(*ssa.Call); ok && strings.HasSuffix(an.CallName(&c.Call), callee) {
 							return strings.HasSuffix(describe(p, c.Call.Args[len(c.Call.Args)-1]), argSuffix)
 						}
 					}
@@ -633,9 +633,9 @@ func runG4(p *an.Prog, r *an.Result) {
 			}
 			switch {
 			case strings.HasSuffix(field, ".Body"):
-				okBody = fromCall("(render.Config).compileNodes", ".Body")
+				okBody = fromCall(".compileNodes", ".Body") || builtByAppend(st.Val)
 			case strings.HasSuffix(field, ".Clauses"):
-				okClauses = fromCall("(render.Config).compileBlocks", ".Clauses")
+				okClauses = fromCall(".compileBlocks", ".Clauses") || builtByAppend(st.Val)
 			case strings.HasSuffix(field, ".Token"):
 				okToken = strings.HasSuffix(describe(p, st.Val), ".Token")
 			}
@@ -651,10 +651,50 @@ func runG4(p *an.Prog, r *an.Result) {
 			r.Bad(name, "not "+c.what, an.FuncPos(fn), "the render tree must mirror the parsed tree")
 		}
 	}
-	for _, hn := range []string{"(render.Config).compileNodes", "(render.Config).compileBlocks"} {
-		h := p.Func(hn)
+	// the two lists are compiled element by element: by the helper, or - where the helper has been
+	// inlined - by a loop over n.Body / n.Clauses in the compile function itself
+	type listCheck struct {
+		label   string
+		helper  string
+		field   string
+		isInput func(h *ssa.Function, v ssa.Value) bool
+	}
+	for _, lc := range []listCheck{{"compileNodes", "(render.Config).compileNodes", "Body", nil}, {"compileBlocks", "(render.Config).compileBlocks", "Clauses", nil}} {
+		h := p.Func(lc.helper)
+		var isInput func(v ssa.Value) bool
+		if h != nil {
+			hh := h
+			isInput = func(v ssa.Value) bool { return len(hh.Params) > 1 && v == ssa.Value(hh.Params[1]) }
+		} else if lc.field == "Clauses" || lc.field == "Body" {
+			// inlined: the loop is in the unit of compileNode and ranges over a load of the field
+			field := lc.field
+			for _, uf := range unitWithHelpers(p, fn) {
+				found := false
+				an.EachInstr(uf, func(in ssa.Instruction) {
+					if ia, ok := in.(*ssa.IndexAddr); ok && isForwardRangeIndex(ia.Index) {
+						if ld, ok := ia.X.(*ssa.UnOp); ok {
+							if fa, ok := ld.X.(*ssa.FieldAddr); ok && fieldName(fa) == field && isNamedIn(fa.X.Type().Underlying().(*types.Pointer).Elem(), "parser", "ASTBlock") {
+								found = true
+							}
+						}
+					}
+				})
+				if found {
+					h = uf
+				}
+			}
+			isInput = func(v ssa.Value) bool {
+				if ld, ok := v.(*ssa.UnOp); ok {
+					if fa, ok := ld.X.(*ssa.FieldAddr); ok && fieldName(fa) == field && isNamedIn(fa.X.Type().Underlying().(*types.Pointer).Elem(), "parser", "ASTBlock") {
+						return true
+					}
+				}
+				return false
+			}
+		}
+		hn := lc.helper
 		if h == nil {
-			r.Bad(hn, "not found", token.NoPos, "anchor not resolved")
+			r.Bad(hn, "not found", token.NoPos, "neither the helper nor a loop over the "+lc.field+" of a block in the compile function: anchor not resolved")
 			continue
 		}
 		fwd, atEnd, perChild := false, false, false
@@ -662,25 +702,35 @@ func runG4(p *an.Prog, r *an.Result) {
 		an.EachInstr(h, func(in ssa.Instruction) {
 			switch x := in.(type) {
 			case *ssa.IndexAddr:
-				if x.X == ssa.Value(h.Params[1]) && isForwardRangeIndex(x.Index) {
+				if isInput(x.X) && isForwardRangeIndex(x.Index) {
 					fwd = true
 					body = x.Block()
 				}
 			case *ssa.Call:
 				if b, ok := x.Call.Value.(*ssa.Builtin); ok && b.Name() == "append" {
 					if _, isPhi := x.Call.Args[0].(*ssa.Phi); isPhi {
+						// appending a compiled child: the appended element derives from a compile call on the input's element
 						atEnd = true
 						appendAt = x.Block()
 					}
 				}
-				if an.CallName(&x.Call) == "(render.Config).compileNode" {
-					perChild = true
+				// the child of this iteration is handed to a compile function of the module
+				if callee := x.Call.StaticCallee(); callee != nil && p.InModule(callee) {
+					for _, a := range x.Call.Args {
+						for _, o := range an.Origins(a, an.StepValue) {
+							if ld, ok := o.(*ssa.UnOp); ok {
+								if ia, ok := ld.X.(*ssa.IndexAddr); ok && isInput(ia.X) && isForwardRangeIndex(ia.Index) {
+									perChild = true
+								}
+							}
+						}
+					}
 				}
 			case *ssa.Store:
 				// out[i] = compiled, with i the index of the forward range and out made with the input's length
 				if ia, ok := x.Addr.(*ssa.IndexAddr); ok && isForwardRangeIndex(ia.Index) {
 					if ms, ok := ia.X.(*ssa.MakeSlice); ok {
-						if c := an.CallOf(ms.Len); c != nil && an.CallName(c) == "builtin.len" && c.Args[0] == ssa.Value(h.Params[1]) {
+						if c := an.CallOf(ms.Len); c != nil && an.CallName(c) == "builtin.len" && isInput(c.Args[0]) {
 							atEnd = true
 							appendAt = x.Block()
 						}
@@ -688,12 +738,30 @@ func runG4(p *an.Prog, r *an.Result) {
 				}
 			}
 		})
+		if h != fn && p.Func(lc.helper) == nil || h == fn {
+			// inlined: the right append is the one in the loop over this field
+			if body != nil {
+				var inLoop *ssa.BasicBlock
+				an.EachInstr(h, func(in ssa.Instruction) {
+					if c, ok := in.(*ssa.Call); ok {
+						if b, ok := c.Call.Value.(*ssa.Builtin); ok && b.Name() == "append" && body.Dominates(c.Block()) {
+							if _, isPhi := c.Call.Args[0].(*ssa.Phi); isPhi && inLoop == nil {
+								inLoop = c.Block()
+							}
+						}
+					}
+				})
+				if inLoop != nil {
+					appendAt = inLoop
+				}
+			}
+		}
 		// one-to-one: no iteration gets back to the loop header without having appended
 		skips := body != nil && appendAt != nil && iterationCanSkip(body, map[*ssa.BasicBlock]bool{appendAt: true})
 		if fwd && atEnd && perChild && !skips {
-			r.OK(hn, "compiles each child in order and appends the result at the end", an.FuncPos(h), "forward range + append(acc, compiled) on every iteration that does not return")
+			r.OK(an.FuncName(h), lc.label+": compiles each child in order and appends the result at the end", an.FuncPos(h), "forward range + append(acc, compiled) on every iteration that does not return")
 		} else {
-			r.Bad(hn, "children not compiled one-to-one in order", an.FuncPos(h), fmt.Sprintf("forward range: %v, append at end: %v, compileNode per child: %v, an iteration can skip the append: %v", fwd, atEnd, perChild, skips))
+			r.Bad(an.FuncName(h), lc.label+": children not compiled one-to-one in order", an.FuncPos(h), fmt.Sprintf("forward range: %v, append at end: %v, compile call per child: %v, an iteration can skip the append: %v", fwd, atEnd, perChild, skips))
 		}
 	}
 }
@@ -843,4 +911,31 @@ func runG7(p *an.Prog, r *an.Result) {
 		}
 	}
 	r.Floor("token arms", 4)
+}
+
+// builtByAppend: every origin of the slice is nil/empty or the result of an append onto itself: a list
+// accumulated by a loop of this function (what fills it is decided by the one-to-one check).
+func builtByAppend(v ssa.Value) bool {
+	n := 0
+	for _, o := range an.Origins(v, func(x ssa.Value) []ssa.Value {
+		if c, ok := x.(*ssa.Call); ok {
+			if b, ok := c.Call.Value.(*ssa.Builtin); ok && b.Name() == "append" {
+				return c.Call.Args[:1]
+			}
+		}
+		return an.StepValue(x)
+	}) {
+		switch y := o.(type) {
+		case *ssa.Const:
+		case *ssa.MakeSlice:
+		case *ssa.Call:
+			if b, ok := y.Call.Value.(*ssa.Builtin); !ok || b.Name() != "append" {
+				return false
+			}
+			n++
+		default:
+			return false
+		}
+	}
+	return true
 }
